@@ -477,7 +477,13 @@ pub fn switch(
                     let node = &branches[sel_elem];
                     let arg_count = args[sel_elem];
                     for (i, row) in rows_to_sel.iter_mut().rev().enumerate().rev() {
-                        let row = row.next().unwrap();
+                        // An argument with an empty axis has no element for this selector element
+                        let Some(row) = row.next() else {
+                            return Err(env.error(format!(
+                                "Selector shape {new_shape} is not compatible with array shape {}",
+                                arg_shapes[arg_shapes.len() - 1 - i]
+                            )));
+                        };
                         // println!("  row: {:?}", row);
                         if i < arg_count {
                             env.push(row);
